@@ -12,6 +12,7 @@ C12 — aggregation / disaggregation respect calendar membership.
 from __future__ import annotations
 
 import ast
+from fractions import Fraction
 
 from .. import alg, fin
 from ..alg import Undecided, sym, num, add, sub
@@ -195,8 +196,133 @@ def run(chk):
     chk.ob("C12-R6", "series._conversions.Inlay.disaggregate[DAILY target]", guarded,
            "no is_regular guard or calendar path for the target: a DAILY target is grouped by the constant 365 // f days per period"
            if not guarded else "target regularity is tested before the constant-factor methods", m.loc(d))
+    rule_r7(chk)
     chk.assumptions = [
         "equal-sized nested calendar partitions between regular frequencies (C09-R4)",
         "statistics.mean / builtin sum / numpy.prod propagate NaN",
         "round-trip identities and arip (a KKT system) are numerical and not decided",
     ]
+
+
+ARIP = "irispie.series.arip"
+
+
+def rule_r7(chk):
+    """arip: the autoregressive parameters are the average change per ELAPSED low-frequency period."""
+    from ..alg import div, pow_, Undecided
+    chk.rule("C12-R7", "arip parameters: _get_first_last_observations returns the values at the first and last finite positions and the "
+             "number of periods elapsed between them (last position - first position, so interior gaps count); rho = (last/first)**(1/n) "
+             "and c = (last-first)/n are converted with convert_roc / convert_diff from the low to the high frequency; the aggregation "
+             "vectors sum/mean/first/last have the documented weights", floor=8)
+    m = chk.repo.mod(ARIP)
+    f = m.func("_get_first_last_observations")
+    chk.saw(m, "_get_first_last_observations")
+    wf = None
+    for n in walk_no_nested(f):
+        if isinstance(n, ast.Assign) and "isfinite" in unparse(n.value):
+            wf = n
+    ok = wf is not None and unparse(wf.value).replace(" ", "").rstrip(",)") .startswith("_np.nonzero(_np.isfinite(low_data_v")
+    tgt = wf.targets[0] if wf is not None else None
+    wname = tgt.elts[0].id if isinstance(tgt, ast.Tuple) and isinstance(tgt.elts[0], ast.Name) else (tgt.id if isinstance(tgt, ast.Name) else None)
+    chk.ob("C12-R7", "series.arip._get_first_last_observations[finite positions]", ok if wname else None,
+           f"{wname} = positions of the finite low-frequency observations", m.loc(f))
+    branch = [n for n in walk_no_nested(f) if isinstance(n, ast.If) and wname and wname in unparse(n.test)]
+    if not branch or not wname:
+        chk.undecided("C12-R7", "series.arip._get_first_last_observations[branch]", "shape not recognised", m.loc(f))
+        return
+
+    def subscript(node, conv):
+        t = unparse(node).replace(" ", "")
+        for k in ("0", "-1"):
+            if t == f"{wname}[{k}]":
+                return sym(f"pos[{k}]")
+            if t == f"low_data_v[{wname}[{k}]]":
+                return sym(f"val[{k}]")
+        return None
+    env = {}
+    conv = alg.ToIR(env=env, subscript=subscript)
+    try:
+        for st in branch[0].body:
+            if isinstance(st, ast.Assign) and isinstance(st.targets[0], ast.Name):
+                env[st.targets[0].id] = conv.conv(st.value)
+                conv.env = env
+        ret = single_ret(f)
+        names = [e.id for e in ret.elts]
+        got = [env[nm] for nm in names]
+        want = [sym("val[0]"), sym("val[-1]"), sub(sym("pos[-1]"), sym("pos[0]"))]
+        labels = ["first value", "last value", "elapsed periods"]
+        for lab, g, w in zip(labels, got, want):
+            chk.ob("C12-R7", f"series.arip._get_first_last_observations[{lab}]", alg.equal(g, w), f"{lab} = {alg.show(g)} (want {alg.show(w)})", m.loc(f))
+    except (Undecided, KeyError, AttributeError) as ex:
+        chk.undecided("C12-R7", "series.arip._get_first_last_observations[values]", f"not normalisable: {ex}", m.loc(f))
+    # rho and constant
+    for cls, meth, want_fn, neutral, convf in (("_RateForm", "get_rho", lambda a, b, n: pow_(div(b, a), div(num(1), n)), 1, "_conversions.convert_roc"),
+                                                ("_DiffForm", "get_constant", lambda a, b, n: div(sub(b, a), n), 0, "_conversions.convert_diff")):
+        g = m.methods(cls).get(meth)
+        if g is None:
+            raise AnalysisError(f"anchor vanished: arip.{cls}.{meth}")
+        chk.saw(m, f"{cls}.{meth}")
+        unp = [n for n in walk_no_nested(g) if isinstance(n, ast.Assign) and isinstance(n.targets[0], ast.Tuple) and "_get_first_last_observations" in unparse(n.value)]
+        ife = [n for n in walk_no_nested(g) if isinstance(n, ast.Assign) and isinstance(n.value, ast.IfExp)]
+        r = single_ret(g)
+        if not unp or not ife or not isinstance(r, ast.Call):
+            chk.undecided("C12-R7", f"series.arip.{cls}.{meth}", "shape not recognised", m.loc(g))
+            continue
+        a, b, n_ = [e.id for e in unp[0].targets[0].elts]
+        try:
+            got = alg.ToIR().conv(ife[0].value.body)
+            ok = alg.equal(got, want_fn(sym(a), sym(b), sym(n_))) and unparse(ife[0].value.test) == n_ and literal(ife[0].value.orelse) == neutral
+            chk.ob("C12-R7", f"series.arip.{cls}.{meth}[average change]", ok,
+                   f"{ife[0].targets[0].id} = {alg.show(got)} if {unparse(ife[0].value.test)} else {unparse(ife[0].value.orelse)}", m.loc(g))
+        except Undecided as ex:
+            chk.undecided("C12-R7", f"series.arip.{cls}.{meth}[average change]", str(ex), m.loc(g))
+        args = [unparse(x) for x in r.args]
+        ok = dotted(r.func) == convf and args == [ife[0].targets[0].id, params(g)[0], params(g)[1]]
+        chk.ob("C12-R7", f"series.arip.{cls}.{meth}[frequency conversion]", ok, f"returns {unparse(r)[:70]} (low -> high frequency)", m.loc(g))
+    # aggregation vectors, evaluated on n = 1..6
+    want = {"sum": lambda n: [1] * n, "mean": lambda n: [Fraction(1, n)] * n, "avg": lambda n: [Fraction(1, n)] * n,
+            "first": lambda n: [1] + [0] * (n - 1), "last": lambda n: [0] * (n - 1) + [1]}
+    table = m.assign("_CHOOSE_AGGREGATION_VECTOR")
+    for k, v in zip(table.keys, table.values):
+        key = literal(k)
+        g = m.func(unparse(v))
+        chk.saw(m, g.name)
+        try:
+            bad = None
+            for n in range(1, 7):
+                got = _eval_vec(single_ret(g), {params(g)[0]: n})
+                if got != want[key](n):
+                    bad = (n, got)
+                    break
+            chk.ob("C12-R7", f"series.arip._CHOOSE_AGGREGATION_VECTOR[{key}]", bad is None,
+                   f"{g.name}: weights as documented for n=1..6" if bad is None else f"{g.name}({bad[0]}) = {bad[1]} (want {want[key](bad[0])})", m.loc(g))
+        except (fin.NotFinite, KeyError) as ex:
+            chk.undecided("C12-R7", f"series.arip._CHOOSE_AGGREGATION_VECTOR[{key}]", str(ex), m.loc(g))
+
+
+def single_ret(f):
+    rets = [n for n in walk_no_nested(f) if isinstance(n, ast.Return)]
+    if len(rets) != 1:
+        raise AnalysisError(f"{f.name}: expected a single return")
+    return rets[0].value
+
+
+def _eval_vec(node, env):
+    """list arithmetic with exact fractions: [c]*n, [a]+[b]*k"""
+    if isinstance(node, ast.BinOp) and isinstance(node.op, ast.Add):
+        return _eval_vec(node.left, env) + _eval_vec(node.right, env)
+    if isinstance(node, ast.BinOp) and isinstance(node.op, ast.Mult):
+        l, r = node.left, node.right
+        if isinstance(l, ast.List):
+            return _eval_vec(l, env) * fin.ev(r, env)
+        if isinstance(r, ast.List):
+            return fin.ev(l, env) * _eval_vec(r, env)
+    if isinstance(node, ast.List):
+        return [_eval_frac(e, env) for e in node.elts]
+    raise fin.NotFinite(f"vector expression {unparse(node)[:40]}")
+
+
+def _eval_frac(node, env):
+    if isinstance(node, ast.BinOp) and isinstance(node.op, ast.Div):
+        return Fraction(_eval_frac(node.left, env)) / Fraction(_eval_frac(node.right, env))
+    return fin.ev(node, env)
